@@ -167,7 +167,9 @@ def reported_measures(case, X, y, sel, viol, ref):
             if S.isnan(v):
                 if name == "distance_measure" and any(e is not None and abs(e) < 1e-12 for e in exp):
                     continue  # part of finding F09 (0 is falsy), judged with the selection
-                viol.append({"kind": "measure-undefined", "what": f"{name} of {c} is reported undefined, recomputation gives {exp}"})
+                # explanation F21: with x and y reversed the missing value of the feature becomes an (empty) class
+                f21 = case["selector"] == "regression" and c in case["lcols"] and any(S.isnan(u) for u in X[c].tolist())
+                viol.append({"kind": "measure-undefined", "what": f"{name} of {c} is reported undefined, recomputation gives {exp}", "finding": "F21" if f21 else None})
             elif not any(e is not None and abs(float(v) - e) <= 1e-9 * max(1, abs(e)) for e in exp):
                 viol.append({"kind": "measure-differs", "what": f"{name} of {c} is reported as {float(v)!r}, recomputation gives {exp}"})
 
@@ -218,6 +220,11 @@ def run_case(case):
                 e2 = judge(case, X0, g, cols, variant, True, complete=not use_seam)
                 if not e2:
                     finding = "F09"
+            elif not quantitative and case["selector"] == "regression":
+                # F21 variant: a qualitative feature with missing values has an undefined measure
+                v21 = {c: (None if any(S.isnan(u) for u in X0[c].tolist()) else ref[c][0]) for c in cols}
+                if not judge(case, X0, g, cols, v21, False, complete=not use_seam):
+                    finding = "F21"
             viol.append({"kind": ("quantitative:" if quantitative else "qualitative:") + errs[0].split(":")[0][:40], "what": f"{'quantitative' if quantitative else 'qualitative'} features: {errs[0]}", "finding": finding})
         vals = sorted(round(v, 9) for v in (ref[c][0] for c in cols) if v is not None)
         if len(set(vals)) >= 2:
